@@ -42,6 +42,7 @@ OBLIGATIONS = [
     "VgiVerif.C08.C08_unary",
     "VgiVerif.C08.C08_init_fail",
     "VgiVerif.C08.emittedProducer_eq_sem",
+    "VgiVerif.C08.failing_call_flush_recognised",
     "VgiVerif.C08.C08_robust",
     "VgiVerif.C08.C08_robust_handling",
     "VgiVerif.C08.C08_rpcError_only_exception",
@@ -825,7 +826,7 @@ def run(ctx: Any) -> None:
         check_one(ctx, desc, script)
     for cfg in (Config("pipe"), Config("tcp"), Config("http", None, None), Config("http", None, "zstd")):
         reserved_case(ctx, cfg)
-    for _ in range(ctx.budget(30, 330)):
+    for _ in range(ctx.budget(40, 330)):
         desc = gen_service(rng)
         check_one(ctx, desc, gen_script(rng, desc))
         if rng.random() < 0.5:
